@@ -5,8 +5,9 @@ furax.instruments.sat.create_acquisition, furax.detectors.DetectorArray.__init__
 furax.landscapes.HealpixLandscape.__init__/world2pixel, StokesLandscape.world2index/structure, the `@` of furax._base.core,
 RavelOperator.__init__/mv, IndexOperator.mv and the mv bodies of the three polarimetry operators.
 
-Callee contracts (proved by other packs): IndexOperator.__init__ (C12; its defect — finding C16-F1 — is exposed by a
-separate scenario that inlines the real constructor), StokesLandscape.pixel2index (C17), CompositionOperator.reduce (C01)."""
+Callee contracts (proved by other packs): IndexOperator.__init__ (C12; one more scenario inlines the real constructor
+instead — it exposed finding C16-F1 of the original tree, fixed since by /repo 7013af6, and now guards against its
+recurrence), StokesLandscape.pixel2index (C17), CompositionOperator.reduce (C01)."""
 from __future__ import annotations
 
 import z3
@@ -121,8 +122,8 @@ def build(ck):
                    'random sampling generator is outside the decided core')
     ck.assume_note('C16: sampling angles theta/phi/psi are arrays of one common shape (nsamp,); detector coordinates have '
                    'shape (3, ndet, ndir)')
-    ck.assume_note('C16: wiring of the factories is proved under the C12 contract of IndexOperator.__init__ (the real '
-                   'constructor raises: finding C16-F1), the C17 contract of pixel2index and the C01 contract of reduce(); '
+    ck.assume_note('C16: wiring of the factories is proved under the C12 contract of IndexOperator.__init__ (and once more '
+                   'through the real constructor), the C17 contract of pixel2index and the C01 contract of reduce(); '
                    'P.T @ P = diagonal of hit counts is C12 (TransposeIndexRule) + LA5 and is only checked natively here')
 
     # ================================================================== get_rotation_matrix: nine polynomial identities
@@ -271,7 +272,7 @@ def build(ck):
 
     def projection(kind, multi):
         def sc(S):
-            S.oracle = {'name': 'projection_patched', 'stokes': kind, 'ndir': 2 if multi else 1, 'x64': True}
+            S.oracle = {'name': 'projection', 'stokes': kind, 'ndir': 2 if multi else 1, 'x64': True}
             dtype = z3.Const('dtype', PT.DT)
             E = setup(S, kind, multi, dtype)
             if not E['land'].normal:
@@ -300,7 +301,7 @@ def build(ck):
             ck.explore(f'{PJ}.create_projection_operator', projection(kind, multi), T, contracts=CONTRACTS,
                        label=f'{kind}-{"ndir>=2" if multi else "ndir=1"}')
 
-    # ---- the unchanged tree: the real IndexOperator constructor (finding C16-F1)
+    # ---- the real IndexOperator constructor inlined (finding C16-F1 of the original tree; fixed by /repo 7013af6)
     no_ctor_contract = {k: v for k, v in CONTRACTS.items() if 'IndexOperator' not in k}
 
     def projection_real_ctor(S):
@@ -310,6 +311,8 @@ def build(ck):
         S.oblige('exc', out.normal, tag='factory-returns-with-the-real-IndexOperator-constructor', finding='C16-F1',
                  note=f'raises {out.value.name if not out.normal else ""}: jax.eval_shape hashes self.mv, which reads the '
                       f'field _out_structure before it is assigned')
+        if out.normal:      # same wiring obligations as under the C12 contract, now through the real constructor
+            check_projection(S, out.value, E, 'IQU', False, Ext('numpy.float64'), what='real-constructor')
     ck.explore(f'{PJ}.create_projection_operator', projection_real_ctor, T, contracts=no_ctor_contract, label='real-constructor')
 
     # ================================================================== create_acquisition
@@ -317,7 +320,7 @@ def build(ck):
 
     def acquisition(kind, multi, generic_dtype):
         def sc(S):
-            S.oracle = {'name': 'acquisition_patched', 'stokes': kind, 'ndir': 2 if multi else 1,
+            S.oracle = {'name': 'acquisition', 'stokes': kind, 'ndir': 2 if multi else 1,
                         'dtype': 'float32' if generic_dtype else 'float64', 'x64': True}
             dtype = z3.Const('dtype', PT.DT) if generic_dtype else Ext('numpy.float64')
             E = setup(S, kind, multi, dtype)
